@@ -144,8 +144,22 @@ def _payload_guard(ctx, run, f):
         ats = atoms.atoms_at(f, i)
         ok = any(a.rel == "<=" and a.L.has("_vbi3_bit_slicer.payload") and a.R is not None and f.params[2]["name"] in a.R.locals for a in ats)
         key = "RF-DOM:%s:payload-fits-buffer" % f.name
-        if ok:
-            run.holds("RF-DOM", key, "bs->func is called only under bs->payload <= buffer_size * 8", ex.loc(f, i))
+        # bs->payload is kept in bits for the bitwise routines and in octets for the octet routines
+        # (two stores in set_params, selected together with bs->endian): a test against the buffer
+        # size is in the right unit only if it reads bs->endian as well
+        units = _payload_units(ctx)
+        unit_ok = any(a.rel == "<=" and a.L.has("_vbi3_bit_slicer.payload") and a.R is not None
+                      and (a.R.has("_vbi3_bit_slicer.endian") or a.L.has("_vbi3_bit_slicer.endian")) for a in ats)
+        if ok and len(units) > 1 and not unit_ok:
+            run.violation("RF-UNIT", "RF-UNIT:%s:payload-guard-unit" % f.name, "bs->payload is stored in %d different units by "
+                          "vbi3_bit_slicer_set_params (%s) but the buffer test does not read bs->endian, which selects the unit: "
+                          "for byte aligned payloads a buffer eight times too small passes the test and the slicer writes past it"
+                          % (len(units), " / ".join(sorted(units))), ex.loc(f, i), witness={"units": sorted(units)})
+        elif ok:
+            if len(units) > 1:
+                run.holds("RF-UNIT", "RF-UNIT:%s:payload-guard-unit" % f.name, "the buffer test reads bs->endian, which selects the "
+                          "unit (%s) bs->payload is kept in" % " / ".join(sorted(units)), ex.loc(f, i))
+            run.holds("RF-DOM", key, "bs->func is called only under bs->payload <= buffer_size (in the unit of bs->payload)", ex.loc(f, i))
         else:
             run.violation("RF-DOM", key, "the slicer function is called without the payload-vs-buffer_size test: the payload is written "
                           "into a buffer that may be too small", ex.loc(f, i))
@@ -499,3 +513,22 @@ def _validity_regions(ctx, run):
                           witness={"region": {k: list(v) for k, v in reg.items()}})
         else:
             run.holds("RF-REGION", key, "no TRUE return is reachable for any input in the region %s" % reg, "%s:%d" % (f.file, f.line))
+
+
+def _payload_units(ctx):
+    """How vbi3_bit_slicer_set_params scales payload_bits when it stores bs->payload: {'bits', 'bits >> 3', ...}"""
+    f = ctx.prog.need("vbi3_bit_slicer_set_params", BS)
+    units = set()
+    for bid, i in flow.all_events(f):
+        e = f.exprs[i]
+        if e["k"] == "asg" and e["op"] == "=":
+            l = f.exprs[ex.skip(f, e["c"][0])]
+            if l["k"] == "mem" and l["member"] == "payload":
+                r = f.exprs[ex.skip(f, e["c"][1])]
+                while r["k"] == "cast":
+                    r = f.exprs[ex.skip(f, r["c"][0])]
+                if r["k"] == "bin" and r["op"] in (">>", "/"):
+                    units.add("payload_bits %s %s" % (r["op"], ex.const(f, r["c"][1])))
+                else:
+                    units.add("payload_bits")
+    return units
